@@ -12,7 +12,7 @@ down to single-entry translation units; each minimal failing program is a replay
 Entry points used by lib/vfdriver.py:   run(ctx, prop, stage, tier, res)   replay(ctx, prop, stage, path)
 Stand-alone:                            python3 /verif/lib/c19.py --selftest [--tier thorough] [--groups SO2,SE3]
 """
-import sys, os, re, json, time, hashlib, shutil, subprocess, importlib.util
+import sys, os, re, json, glob, time, hashlib, shutil, subprocess, threading, importlib.util
 import concurrent.futures as cf
 
 HERE = os.path.dirname(os.path.abspath(__file__))
@@ -21,6 +21,7 @@ STD_FLAGS = ['-std=c++11', '-O0', '-w']
 RUN_TIMEOUT = 300
 COMPILE_TIMEOUT = 1800
 N_SETS = 3
+TRANSIENT = re.compile(r'internal compiler error|Killed signal|out of memory|No space left|cannot allocate memory|Resource temporarily unavailable', re.I)
 
 # (name, family, C++ type with {S}, number of bundle elements, chunk size = entries per translation unit)
 GROUPS = [
@@ -409,20 +410,26 @@ class Builder:
                 return {'ok': False, 'exe': None, 'src': src, 'out': f.read(), 'label': label}
         with open(src, 'w') as f:
             f.write(src_text)
-        tmp = exe + '.tmp%d' % os.getpid()
-        self.n_compiles += 1
-        rc, out = sh([self.cxx] + self.flags + self.pch + [src, '-o', tmp], timeout=COMPILE_TIMEOUT)
-        if rc == 0 and os.path.exists(tmp):
-            os.replace(tmp, exe)
-            return {'ok': True, 'exe': exe, 'src': src, 'out': out, 'label': label}
-        if os.path.exists(tmp):
-            os.remove(tmp)
+        tmp = exe + '.tmp%d.%d' % (os.getpid(), threading.get_ident())
+        cmd = [self.cxx] + self.flags + self.pch + [src, '-o', tmp]
+        for attempt in (0, 1):
+            self.n_compiles += 1
+            rc, out = sh(cmd, timeout=COMPILE_TIMEOUT)
+            if rc == 0 and os.path.exists(tmp):
+                os.replace(tmp, exe)
+                return {'ok': True, 'exe': exe, 'src': src, 'out': out, 'label': label}
+            if os.path.exists(tmp):
+                os.remove(tmp)
+            transient = rc in (124, 127) or TRANSIENT.search(out) is not None
+            if not transient:
+                break
         if rc == 124:
-            out += '\nerror: compiler timed out'
-        with open(log + '.tmp', 'w') as f:
-            f.write(out)
-        os.replace(log + '.tmp', log)
-        return {'ok': False, 'exe': None, 'src': src, 'out': out, 'label': label}
+            out += '\nerror: compiler timed out after %d s' % COMPILE_TIMEOUT
+        if not transient:   # a failure caused by the machine (out of memory, disk, time-out) is never cached
+            with open(log + '.tmp%d' % os.getpid(), 'w') as f:
+                f.write(out)
+            os.replace(log + '.tmp%d' % os.getpid(), log)
+        return {'ok': False, 'exe': None, 'src': src, 'out': out, 'label': label, 'transient': transient}
 
 
 def first_error_line(out, src=None):
@@ -521,6 +528,10 @@ def build_cells(builder, cell_lists, pool, say=None, learned=None, explode=False
             if r['ok']:
                 for i, c in enumerate(cells):
                     c.status, c.exe, c.idx = 'built', r['exe'], i
+            elif len(cells) == 1 and r.get('transient'):
+                c = cells[0]
+                c.status = 'inconclusive'
+                c.why = 'compiler failure not attributable to the program: ' + first_error_line(r['out'], r['src'])
             elif len(cells) == 1:
                 c = cells[0]
                 c.status = 'compile-fail'
@@ -612,17 +623,35 @@ def write_replay(ctx, prop, cell, seed, cxx, stage, suffix=''):
     return path
 
 
-def prune(ctx, keep):
+def prune(ctx, keep, others=3):
+    """drop old build caches: keep those of this run and the `others` most recently used other ones"""
     try:
-        ds = [os.path.join(ctx.build_root, x) for x in os.listdir(ctx.build_root) if x.startswith('c19-')]
-        ds.sort(key=lambda p: os.path.getmtime(p))
-        for p in ds:
-            if os.path.basename(p) in keep:
-                continue
-            if len(ds) - ds.index(p) > 4:
-                shutil.rmtree(p, ignore_errors=True)
+        ds = [os.path.join(ctx.build_root, x) for x in os.listdir(ctx.build_root)
+              if x.startswith('c19-') and x not in keep and not x.startswith('c19-replay-')]
+        ds.sort(key=lambda p: os.path.getmtime(p), reverse=True)
+        for p in ds[others:]:
+            shutil.rmtree(p, ignore_errors=True)
     except OSError:
         pass
+
+
+def as_list(x):
+    if x is None:
+        return []
+    return x if isinstance(x, list) else [x]
+
+
+def known_finding_of(known, cell):
+    """a finding of KNOWN_FINDINGS.json (status 'known', property C19) covers the failing cells matched by one of its 'cells'
+    regular expressions; a cell is named <group>-<scalar>-<own|map|cmap>-<entry>, e.g. 'SE3-double-map-t_op_J_mul'"""
+    for k in known:
+        for pat in as_list(k.get('cells')):
+            try:
+                if re.fullmatch(pat, cell.ident()):
+                    return k
+            except re.error:
+                pass
+    return None
 
 
 def chunks_of(cells, size):
@@ -658,8 +687,10 @@ def run(ctx, prop, stage, tier, res):
             except OSError:
                 pass
 
-    cells_total = cells_failed = cells_ran = n_programs = 0
+    cells_total = cells_failed = cells_ran = n_programs = cells_inconclusive = 0
     keep = set()
+    known = [k for k in getattr(ctx, 'known', []) if k.get('status') == 'known' and prop in as_list(k.get('property'))]
+    known_hits = {}
     fail_list = []
     samples = []
     per_compiler = {}
@@ -705,6 +736,10 @@ def run(ctx, prop, stage, tier, res):
                 if c.status == 'ok':
                     cells_ran += 1
                     continue
+                if c.status == 'inconclusive':
+                    cells_inconclusive += 1
+                    res['notes'].append('%s [%s]: %s (inconclusive)' % (c.ident(), cxx, c.why))
+                    continue
                 nfail += 1
                 if c.ident() not in seen_replay:
                     seen_replay.add(c.ident())
@@ -724,6 +759,11 @@ def run(ctx, prop, stage, tier, res):
             list(pool.map(confirm, failing))
             for c in failing:
                 path = write_replay(ctx, prop, c, ctx.seed, cxx, stage, suffix)
+                kf = known_finding_of(known, c)
+                if kf is not None:   # excluded by construction, reported as a KNOWN-FINDING line
+                    known_hits[kf['id']] = known_hits.get(kf['id'], 0) + 1
+                    fail_list.append({'cell': c.ident(), 'compiler': cxx, 'status': 'known:' + kf['id'], 'why': c.why, 'snippet': c.code})
+                    continue
                 res['violations'].append({'replay': path, 'why': ('[%s] ' % cxx if len(compilers) > 1 else '') + c.why})
                 fail_list.append({'cell': c.ident(), 'compiler': cxx, 'status': c.status, 'why': c.why, 'snippet': c.code})
             cells_total += len(all_cells)
@@ -733,7 +773,34 @@ def run(ctx, prop, stage, tier, res):
             if not samples:
                 step = max(1, len(all_cells) // 6)
                 samples = [c.describe() for c in all_cells[::step]][:6]
+            # replay tier: stored regression programs must build and pass (witnesses of known findings must still fail)
+            regress = sorted(f for f in glob.glob(os.path.join(ctx.root, 'replays', 'regress', prop, '*.cpp')))
+            witness_of = {os.path.abspath(os.path.join(ctx.root, k['witness'])): k for k in known if k.get('witness')}
+
+            def one_regress(path):
+                with open(path, errors='replace') as f:
+                    r = b.build(f.read(), os.path.basename(path))
+                if not r['ok']:
+                    return path, 'does not build: ' + first_error_line(r['out'], r['src'])
+                rc1, out1 = sh([r['exe']], timeout=RUN_TIMEOUT)
+                return path, None if rc1 == 0 else 'exit status %d: %s' % (rc1, (out1.strip().splitlines() or [''])[0][:300])
+
+            for path, why in pool.map(one_regress, regress):
+                res['replayed'] = res.get('replayed', 0) + 1
+                kf = witness_of.get(os.path.abspath(path))
+                if kf is not None:
+                    if why:
+                        known_hits[kf['id']] = known_hits.get(kf['id'], 0) + 1
+                elif why:
+                    res['violations'].append({'replay': path, 'why': 'regression replay fails [%s]: %s' % (cxx, why)})
     prune(ctx, keep)
+    for k in known:
+        if known_hits.get(k['id']):
+            res['known_lines'].append('KNOWN-FINDING: property=%s %s [%s] cells=%d%s' % (
+                prop, k.get('text') or k.get('line', ''), k['id'], known_hits[k['id']],
+                ' witness=' + k['witness'] if k.get('witness') else ''))
+        elif k.get('cells') or (k.get('witness') or '').endswith('.cpp'):
+            res['notes'].append('known finding %s no longer reproduces (no failing cell matches it)' % k['id'])
     res['extra_evaluations'] = res.get('extra_evaluations', 0) + cells_total
     res['extra_nontrivial'] = res.get('extra_nontrivial', 0) + cells_ran
     res.setdefault('extra_samples', []).extend(samples)
@@ -742,6 +809,7 @@ def run(ctx, prop, stage, tier, res):
         'entries': len(entries), 'entry_instances': len(entry_names), 'translation_units': n_programs,
         'groups': [g[0] for g in groups], 'scalars': SCALARS, 'kinds': [KIND_DESC[k] for k in KINDS],
         'compilers': per_compiler, 'input_sets_per_program': N_SETS, 'failing_cells': fail_list[:400],
+        'cells_inconclusive': cells_inconclusive, 'excluded_known': sum(known_hits.values()), 'known_hits': known_hits,
         'exhaustive': True, 'c19_wall_s': round(time.time() - t0, 1),
         'rule': 'finite matrix {documented API entry} x {group} x {float,double} x {owning, Map, Map<const>}: every applicable '
                 'cell is generated, compiled, linked and run (enumeration, not sampling); a cell is a distinct program',
@@ -835,6 +903,11 @@ def selftest(argv):
     ap.add_argument('--replay')
     a = ap.parse_args(argv)
     ctx = FakeCtx(a.repo, a.root, a.seed or 1)
+    try:
+        with open(os.path.join(a.root, 'KNOWN_FINDINGS.json')) as f:
+            ctx.known = json.load(f).get('findings', [])
+    except (OSError, ValueError):
+        pass
     stage = {'name': 'c19', 'kind': 'py', 'module': 'c19', 'fn': 'run'}
     if a.groups:
         stage['groups'] = a.groups.split(',')
@@ -847,10 +920,19 @@ def selftest(argv):
     cov = res['extra_cov']
     for n in res['notes']:
         print('note:', n)
-    by_why = {}
+    for l in res['known_lines']:
+        print(l)
     for v in res['violations']:
         print('VIOLATION property=C19 replay=%s' % v['replay'])
         print('  ' + v['why'][:300])
+    summary = {}
+    for fcell in cov['failing_cells']:
+        e = fcell['cell'].split('-', 3)[-1]
+        d = summary.setdefault((e, fcell['status']), [0, set(), fcell['why']])
+        d[0] += 1
+        d[1].add(fcell['cell'].split('-')[0])
+    for (e, st), (n, gs, why) in sorted(summary.items(), key=lambda kv: -kv[1][0]):
+        print('  %4d cells  %-28s %-12s groups=%s\n             e.g. %s' % (n, e, st, ','.join(sorted(gs)), why[:220]))
     print('C19 selftest tier=%s repo=%s seed=%d: entries=%d cells=%d ran=%d failed=%d programs=%d compiled=%s wall=%.1fs' % (
         a.tier, a.repo, ctx.seed, cov['entries'], cov['cells_total'], cov['cells_compiled_and_ran'], cov['cells_failed'],
         cov['translation_units'], {k: (v['programs_compiled'], v['programs_from_cache']) for k, v in cov['compilers'].items()}, wall))
